@@ -260,7 +260,19 @@ fn run_curve2(c: &mut Ctx) {
         let bd = m.dist(&q);
         let tied: Vec<usize> = (0..va.len() - 1).filter(|&k| (closest_on_seg2(&va[k], &va[k + 1], &q).0 - q).norm() <= bd + 1e-6 * ext).collect();
         if unique_min2(&va, &q, bd, ext) {
-            c.close("Curve2::at_closest_to_point", "equivariant point", &class, (p1 - t * p0).norm(), 0.0, eps);
+            // the moved vertices are rounded (u x offset each), which turns an edge of length e by
+            // u x offset / e; the foot of a query at distance d moves by d times that angle
+            // (the shortest of the tied edges and their neighbours: next to a vertex the foot is
+            // governed by the directions of both edges that meet there)
+            let lo = tied[0].saturating_sub(1);
+            let hi = (tied[tied.len() - 1] + 1).min(va.len() - 2);
+            let e_near = (lo..=hi).map(|k| (va[k + 1] - va[k]).norm()).fold(f64::INFINITY, f64::min);
+            let lever = 1e2 * U * (m.offset() + mb.offset()) * bd / e_near;
+            if c.verbose && (p1 - t * p0).norm() > eps + lever {
+                let k = tied[0];
+                println!("  q {:?} bd {bd:e} tied {:?} edge {k}: {:?} -> {:?} (len {e_near:e}); p0 {:?} p1 {:?} T p0 {:?}; eps {eps:e} lever {lever:e}; prev edge len {:?}, next edge len {:?}", q, tied, va[k], va[k + 1], p0, p1, t * p0, if k > 0 { Some((va[k] - va[k - 1]).norm()) } else { None }, va.get(k + 2).map(|w| (w - va[k + 1]).norm()));
+            }
+            c.close("Curve2::at_closest_to_point", "equivariant point", &class, (p1 - t * p0).norm(), 0.0, eps + lever);
             // Station-level quantities (arc length, direction, signed deviation) are only defined
             // unambiguously when a single edge attains the minimum strictly inside itself (a curve
             // that revisits a point has two stations at one place).
@@ -345,7 +357,13 @@ fn run_curve3(c: &mut Ctx) {
         let bd = m.dist(&q);
         let tied: Vec<usize> = (0..va.len() - 1).filter(|&k| (closest_on_seg3(&va[k], &va[k + 1], &q).0 - q).norm() <= bd + 1e-6 * ext).collect();
         if unique_min3(&va, &q, bd, ext) {
-            c.close("Curve3::at_closest_to_point", "equivariant point", class, (p1 - t * p0).norm(), 0.0, eps);
+            // (see the 2-D stream: rounding of the moved vertices turns short edges; a distant query
+            // amplifies it)
+            let lo = tied[0].saturating_sub(1);
+            let hi = (tied[tied.len() - 1] + 1).min(va.len() - 2);
+            let e_near = (lo..=hi).map(|k| (va[k + 1] - va[k]).norm()).fold(f64::INFINITY, f64::min);
+            let lever = 1e2 * U * (m.offset() + mb.offset()) * bd / e_near;
+            c.close("Curve3::at_closest_to_point", "equivariant point", class, (p1 - t * p0).norm(), 0.0, eps + lever);
             let k = tied[0];
             let interior = tied.len() == 1 && (p0 - va[k]).norm() > 1e-6 * ext && (p0 - va[k + 1]).norm() > 1e-6 * ext;
             if interior {
